@@ -19,9 +19,9 @@ RULE = ('five exhaustive sub-spaces: (1) every permission value 0..07777 on regu
         'disk + symlink/char/block nodes, and as zip-member modes for all 7 type nibbles: mode string, 12 permission '
         'booleans, *_all, suid, sgid, type booleans; (2) lstat columns of every entry kind incl. dangling links and ids without '
         'a name; (3) xattrs and each of the 41 capabilities x {p,i,ip} x {e,-} x v2/v3 layouts; (4) name/ext/dir/path/abspath/'
-        'absdir/is_hidden/is_empty over a name pool x root spellings, and every extension of every class list x {lower, upper, '
-        'mixed, whole name, non-final component} under the default and an overriding configuration; (5) sha1/256/512/sha3, '
-        'line_count, is_shebang, contains over lengths {0..3, 2^k-1, 2^k, 2^k+1 : k=10..17} x content kinds x needle positions; '
+        'absdir/is_hidden/is_empty over a name pool x root spellings x {bfs, dfs} x readdir order, and every extension of every class list x {lower, upper, '
+        'mixed, whole name, non-final component} under the default and an overriding configuration (incl. multi-part and dot-less configured suffixes); (5) sha1/256/512/sha3, '
+        'line_count, is_shebang, contains over lengths (plus ASCII and multi-byte needles straddling the 8K/32K/64K/128K boundaries at every byte alignment) {0..3, 2^k-1, 2^k, 2^k+1 : k=10..17} x content kinds x needle positions; '
         'non-trivial = every row whose expected cells are not all empty/false')
 ASSUMPTIONS = ['oracle = os.lstat / stat.filemode / pwd / grp / hashlib / stat(1) %W for the birth time',
                'for zip members is_dir/is_file/is_symlink are derived from the member name (C19), only mode string, permission and '
@@ -74,17 +74,22 @@ def groups(tier, seed):
         for i in range(len(CAPS)):
             yield {'kind': 'cap-pairs', 'first': i}
     for root in ('dot', 'rel', 'abs', 'relslash'):
-        yield {'kind': 'location', 'root': root}
+        for mode in ('', 'dfs', 'bfs'):
+            for rd in ('sorted', 'rev'):
+                yield {'kind': 'location', 'root': root, 'mode': mode, 'rd': rd}
     for cls in ('is_archive', 'is_audio', 'is_book', 'is_doc', 'is_font', 'is_image', 'is_source', 'is_video'):
         yield {'kind': 'extclass', 'cls': cls, 'override': False}
         yield {'kind': 'extclass', 'cls': cls, 'override': True}
     for k in content_lengths(tier):
         yield {'kind': 'content', 'length': k}
+    for bound in (8192, 32768, 65536, 131072):
+        yield {'kind': 'needle-align', 'bound': bound}
 
 
 def single(case):
     g = dict(case.get('group') or {})
-    g['only'] = case.get('row')
+    # location rows are keyed by the displayed path, which contains the per-run scratch directory: replay the whole group
+    g['only'] = None if g.get('kind') == 'location' else case.get('row')
     return g
 
 
@@ -314,8 +319,9 @@ def eval_group(env, group, tier):
             arg = {'dot': '.', 'rel': 'top', 'abs': os.path.join(root, 'top'), 'relslash': 'top/'}[spelling]
             cwd = os.path.join(root, 'top') if spelling == 'dot' else root
             cols = ['name', 'ext', 'dir', 'abspath', 'absdir', 'is_hidden', 'is_empty', 'extension', 'dirname', 'directory']
-            q = 'path, ' + ', '.join(cols) + ' from ' + arg + ' into list'
-            o = env.run([q], cwd=cwd)
+            mode = group.get('mode', '')
+            q = 'path, ' + ', '.join(cols) + ' from ' + arg + (' ' + mode if mode else '') + ' into list'
+            o = env.run([q], cwd=cwd, preload=True, env={'FSX_READDIR': group.get('rd', 'sorted')})
             rws = o.rows(len(cols) + 1)
             if o.rc != 0 or rws is None:
                 raise core.MachineryError('location query failed %r' % o.brief())
@@ -342,7 +348,7 @@ def eval_group(env, group, tier):
             m = re.search(r'(?ms)^%s = \[(.*?)\]' % cls, conf0)
             default_list = re.findall(r'"([^"]+)"', m.group(1))
             if group['override']:
-                active = ['.zzz', '.q1', default_list[0]]
+                active = ['.zzz', '.q1', default_list[0], '.tar.gz', 'akefile', '.a.b.c']
                 lst = ', '.join('"%s"' % e for e in active)
                 newconf = re.sub(r'(?ms)^%s = \[.*?\]' % cls, '%s = [%s]' % (cls, lst), conf0)
             else:
@@ -353,6 +359,9 @@ def eval_group(env, group, tier):
                 bare = e[1:]
                 for n in ('f' + e, 'F' + e.upper(), 'm' + e.title(), e, bare, 'x' + e + '.txt', 'x' + bare, 'y.' + bare + 'z'):
                     tree[n] = F(0)
+            for n in ('x.tar.gz', 'X.TAR.GZ', 'y.gz', 'tar.gz', '.tar.gz', 'Makefile', 'makefile', 'akefile', 'Makefile.in', 'q.a.b.c', 'a.b.c', 'q.b.c',
+                      'x.tar.gzz', 'xtar.gz'):
+                tree[n] = F(0)
             tree['dir' + default_list[0]] = D({})
             core.materialise(root, tree)
             try:
@@ -362,6 +371,29 @@ def eval_group(env, group, tier):
                 env.set_config(conf0)
             exp = {n: (b(any(n.lower().endswith(x) for x in active)),) for n in tree}
             row_outcomes(group, rows, exp, [cls], outs, 'extclass-' + ('override' if group['override'] else 'default'))
+        elif kind == 'needle-align':
+            # a needle (ASCII / multi-byte) straddling a buffer boundary at every byte alignment
+            B = group['bound']
+            needles = {'A': 'NEEDLE', 'U': 'NÉ中DLÉ', 'S': 'é'}
+            tree, exp = {}, {}
+            for tag, nd in needles.items():
+                nb = nd.encode()
+                for shift in range(0, len(nb) + 2):
+                    n = '%s_%02d' % (tag, shift)
+                    tree[n] = F(data=b'a' * (B - shift) + nb + b'b' * 50)
+                for shift in (1, 2):
+                    n2 = '%s_cut%d' % (tag, shift)      # only a proper prefix of the needle is present
+                    tree[n2] = F(data=b'a' * (B - shift) + nb[:-1] + b'b' * 50)
+            core.materialise(root, tree)
+            for tag, nd in needles.items():
+                rows = query_rows(env, root, ["contains('%s')" % nd])
+                e2 = {}
+                for n, node in tree.items():
+                    try:
+                        e2[n] = (b(nd in node['data'].decode('utf-8')),)
+                    except UnicodeDecodeError:
+                        e2[n] = rows.get(n, ('',))
+                row_outcomes(dict(group, needle=tag), rows, e2, ['contains'], outs, 'needle-align')
         elif kind == 'content':
             k = group['length']
             needle = 'NEEDLE'
